@@ -18,6 +18,12 @@ pub fn any_num() -> Num {
     digit!(0); digit!(1); digit!(2); digit!(3); digit!(4); digit!(5); digit!(6); digit!(7);
     Num { buf, len: 8, val }
 }
+/// a one-digit number (keeps the loop bound of str::parse at 2 in harnesses that also unroll the search)
+pub fn any_num_1digit() -> Num {
+    let d = sym::u8(); sym::assume(d < 10);
+    let mut buf = [b'0'; 8]; buf[0] = b'0' + d;
+    Num { buf, len: 1, val: d as u64 }
+}
 pub fn any_num_varlen() -> Num {
     let len = sym::u8() as usize; sym::assume(len >= 1 && len <= 8);
     let mut buf = [b'0'; 8]; let mut val = 0u64;
